@@ -1,4 +1,5 @@
-// C10-destroy-inflight-callback-repro.cpp -- found by work package rr, NOT fixed, not part of any check yet.
+// C10-destroy-inflight-callback-repro.cpp -- found by work package rr; repair: patches/C10-destroy-inflight-callback.diff;
+// replayed by tools/props/c10.py section "destroy race" (harness command destroyrace).
 //
 // Destroying an interpreter while a timer callback of a delayed <send> is past its critical section
 // (BasicDelayedEventQueue::timerCallback has erased its entry, schedule point delay.callback.unlocked) and has
